@@ -82,6 +82,7 @@ ListGen(ms) == [k |-> "list", msgs |-> ms, pos |-> 0, p |-> 0, done |-> FALSE]
 ZeroCtr == [s \in Streams |-> 0]
 ClosedRun == [open |-> FALSE, ord |-> 0, bundling |-> FALSE, bname |-> "", objs |-> <<>>,
               ctr |-> ZeroCtr, copy |-> ZeroCtr, descs |-> {}, dobjs |-> [s \in Streams |-> {}],
+              dord |-> <<>>,      \* the streams that have a descriptor, in the order of RunBundler._descriptors (a dict)
               mons |-> {}, monsub |-> {}, intr |-> FALSE,
               dcache |-> {}]      \* devices whose describe()/configuration are cached by this run's bundler
 
@@ -336,8 +337,9 @@ ReqTerminatePaused(op) ==
   /\ S' = [S EXCEPT !.interrupted = TRUE, !.st = TermState(op), !.exc = TermExc(op),
                     !.exitStatus = IF op \in {"abort", "halt"} THEN "abort" ELSE @, !.lateRet = op]
   /\ obs' = <<Ev("req", op, "", "", "", 0, 0), EvState("paused", TermState(op))>>
+\* (the helper thread and the main thread are both released by the task's done-callback: their returns come in either order)
 LateReqRet ==
-  /\ S.lateRet # "" /\ S.pc = "done" /\ S.caller.phase = "idle"
+  /\ S.lateRet # "" /\ S.pc = "done" /\ S.blocking
   /\ S' = [S EXCEPT !.lateRet = ""]
   /\ obs' = <<Ev("reqret", S.lateRet, "ok", "", "", 0, 0)>>
 
@@ -608,10 +610,24 @@ Exec(d) ==
                        ELSE LET c0 == IF have \/ r.ctr[sname] # 0 THEN r.ctr[sname] ELSE 1
                                 r1 == [r EXCEPT !.bundling = FALSE, !.bname = "",
                                                 !.descs = @ \cup {sname}, !.dobjs[sname] = objset,
+                                                !.dord = IF have THEN @ ELSE Append(@, sname),
                                                 !.ctr[sname] = c0 + 1]
                             IN /\ S' = Done(SetRun(s0, m.run, r1), Val(None))
                                /\ obs' = hook \o (IF have THEN <<>> ELSE <<EvDoc("descriptor", sname, "", 0, r.ord)>>)
                                          \o <<EvDoc("event", sname, "", c0, r.ord)>>
+       [] c = "configure" ->
+            \* RunEngine._configure 2512-2536 + RunBundler.configure: rejected inside a bundle (before the device is touched);
+            \* the device is configured; every stream of the message's run whose descriptor lists the device is described
+            \* again (in the order of the _descriptors dict, each re-inserted at its end); counters are not touched
+            /\ d \in {"ok", "raise"}
+            /\ IF open /\ r.bundling THEN d = "ok" /\ S' = Done(s0, IMS) /\ obs' = hook
+               ELSE IF d = "raise" THEN S' = Done(s0, Exc("DevErr")) /\ obs' = hook \o <<EvDev(m.obj, "configure", "raise", 0)>>
+               ELSE IF ~open THEN S' = Done(s0, Val("seq:2")) /\ obs' = hook \o <<EvDev(m.obj, "configure", "", 0)>>
+               ELSE LET hit == SelectSeq(r.dord, LAMBDA sn : m.obj \in r.dobjs[sn])
+                        rest == SelectSeq(r.dord, LAMBDA sn : m.obj \notin r.dobjs[sn])
+                    IN /\ S' = Done(SetRun(s0, m.run, [r EXCEPT !.dord = rest \o hit]), Val("seq:2"))
+                       /\ obs' = hook \o <<EvDev(m.obj, "configure", "", 0)>>
+                                 \o [i \in 1..Len(hit) |-> EvDoc("descriptor", hit[i], "", 0, r.ord)]
        [] c = "drop" ->
             /\ d = "ok"
             /\ IF ~open \/ ~r.bundling THEN S' = Done(s0, IMS) /\ obs' = hook
@@ -672,7 +688,7 @@ Exec(d) ==
                ELSE IF m.obj \notin r.dcache THEN S' = Block(s0, "mon_cache", "", {}) /\ obs' = hook
                ELSE LET have == m.obj \in r.descs
                         r1 == [r EXCEPT !.mons = @ \cup {m.obj}, !.monsub = @ \cup {m.obj}, !.descs = @ \cup {m.obj},
-                                        !.dobjs[m.obj] = {m.obj},
+                                        !.dobjs[m.obj] = {m.obj}, !.dord = IF have THEN @ ELSE Append(@, m.obj),
                                         !.ctr[m.obj] = IF @ = 0 THEN 1 ELSE @]
                     IN /\ S' = Done(ResetCkpt(SetRun(s0, m.run, r1)), Val(None))
                        /\ obs' = hook \o <<EvDoc("descriptor", m.obj, "", 0, r.ord), EvDev(m.obj, "subscribe", "", 0)>>
@@ -736,6 +752,7 @@ CmdDone ==
                 r == S.runs[m.run]
                 r1 == [r EXCEPT !.mons = @ \cup {m.obj}, !.monsub = @ \cup {m.obj}, !.descs = @ \cup {m.obj},
                                 !.dobjs[m.obj] = {m.obj}, !.dcache = @ \cup {m.obj},
+                                !.dord = IF m.obj \in r.descs THEN @ ELSE Append(@, m.obj),
                                 !.ctr[m.obj] = IF @ = 0 THEN 1 ELSE @]
             IN /\ S' = Done(ResetCkpt(SetRun(S, m.run, r1)), Val(None))
                /\ obs' = <<EvDoc("descriptor", m.obj, "", 0, r.ord), EvDev(m.obj, "subscribe", "", 0)>>
